@@ -27,7 +27,7 @@ ASSUMPTIONS = [
 ]
 
 OPS = ["same", "other", "touch", "adv0.4", "adv1", "adv2.5", "plain", "etag", "lm", "both", "list-first", "list-mid", "list-last", "weak",
-       "weaklist", "star", "etag0", "lm0", "both0", "other-keepm", "list-empty", "list-comma", "etag-range", "lm-range"]
+       "weaklist", "star", "etag0", "lm0", "both0", "other-keepm", "list-empty", "list-comma", "etag-range", "lm-range", "list-long"]
 MODS = ("same", "other", "touch", "other-keepm")
 
 
@@ -129,6 +129,7 @@ def run_history(ctx, vfs, iface, app, url_path, file_path, seq, start_frac, zone
                     "list-mid": [("If-None-Match", f'"zzz", {j["etag"]}, "yyy"')],
                     "list-last": [("If-None-Match", f'"zzz",{j["etag"]}')],
                     "list-empty": [("If-None-Match", f', {j["etag"]},' if step % 2 else f'"a", , {j["etag"]}')],  # empty list members are legal (RFC 7230 7)
+                    "list-long": [("If-None-Match", ", ".join(['"%040x"' % (k * 7919) for k in range(8)] + [j["etag"]] + ['W/"%040x"' % k for k in range(3)]))],  # a dozen tags, ~500 characters
                     "list-comma": [("If-None-Match", f'"foo,bar", {j["etag"]}')],  # a comma inside an entity-tag is legal (RFC 7232 2.3)
                     "etag-range": [("If-None-Match", j["etag"]), ("Range", "bytes=0-")],  # validators come first: an unchanged file is 304 also for a range request
                     "lm-range": [("If-Modified-Since", j["lm"]), ("Range", "bytes=0-")],
@@ -200,7 +201,7 @@ def run_history(ctx, vfs, iface, app, url_path, file_path, seq, start_frac, zone
     return nontriv
 
 
-REGRESSION = [("etag-range",), ("lm-range",), ("other", "etag-range"), ("adv1", "other-keepm", "lm"), ("adv2.5", "other-keepm", "both"), ("list-empty",), ("list-comma",), ("other", "both"), ("weaklist",), ("list-last",), ("other", "lm"), ("adv1", "touch", "etag"), ("same", "adv2.5", "etag0"),
+REGRESSION = [("list-long",), ("etag-range",), ("lm-range",), ("other", "etag-range"), ("adv1", "other-keepm", "lm"), ("adv2.5", "other-keepm", "both"), ("list-empty",), ("list-comma",), ("other", "both"), ("weaklist",), ("list-last",), ("other", "lm"), ("adv1", "touch", "etag"), ("same", "adv2.5", "etag0"),
               ("other", "adv1", "other", "lm0"), ("adv0.4", "same", "both"), ("touch", "weak"), ("adv1", "same", "lm")]
 
 
